@@ -102,7 +102,7 @@ func varList(gg *GenGrammar, vns []string, pretty map[string]string) (names, cto
 		}
 		ok = append(ok, vn)
 		ns = append(ns, fmt.Sprintf("%q", pretty[vn]))
-		cs = append(cs, vn+".New")
+		cs = append(cs, "v"+vn+".New")
 	}
 	return "[]string{" + strings.Join(ns, ", ") + "}", "[]func() hl.Parser{" + strings.Join(cs, ", ") + "}", ok
 }
@@ -117,7 +117,7 @@ func init() {
 		return runGrammarProperty(c, parserFamily(c, ""), &GramSpec{
 			Variants: []string{"d"},
 			Entries: func(gg *GenGrammar) []EntrySpec {
-				return []EntrySpec{{Name: "C01", Params: "n, rule int", Body: "hl.C01(G, d.New, n, rule, NSW)"}}
+				return []EntrySpec{{Name: "C01", Params: "n, rule int", Body: "hl.C01(G, vd.New, n, rule, NSW)"}}
 			},
 			Jobs: func(gg *GenGrammar) []*Job {
 				var jobs []*Job
@@ -135,7 +135,7 @@ func init() {
 		return runGrammarProperty(c, parserFamily(c, ""), &GramSpec{
 			Variants: []string{"d"},
 			Entries: func(gg *GenGrammar) []EntrySpec {
-				return []EntrySpec{{Name: "C03", Params: "n, rule int", Body: "hl.C03(G, d.New, n, rule, NSW)"}}
+				return []EntrySpec{{Name: "C03", Params: "n, rule int", Body: "hl.C03(G, vd.New, n, rule, NSW)"}}
 			},
 			Jobs:              func(gg *GenGrammar) []*Job { return lenJobs("C03", N, 0) },
 			BrokenIsViolation: true, ValidateEveryGrammar: validateEvery(c), Cfg: parserCfg(c),
@@ -155,7 +155,7 @@ func init() {
 				if len(ok) == 0 {
 					return nil
 				}
-				return []EntrySpec{{Name: "C02", Params: "n int", Body: fmt.Sprintf("hl.C02(G, d.New, %s, %s, n, NSW)", names, ctors)}}
+				return []EntrySpec{{Name: "C02", Params: "n int", Body: fmt.Sprintf("hl.C02(G, vd.New, %s, %s, n, NSW)", names, ctors)}}
 			},
 			Jobs:              func(gg *GenGrammar) []*Job { return lenJobs("C02", N) },
 			BrokenIsViolation: true, ValidateEveryGrammar: validateEvery(c), Cfg: parserCfg(c),
@@ -167,7 +167,7 @@ func init() {
 		return runGrammarProperty(c, parserFamily(c, "actions"), &GramSpec{
 			Variants: []string{"d"},
 			Entries: func(gg *GenGrammar) []EntrySpec {
-				return []EntrySpec{{Name: "C04", Params: "n int", Body: "hl.C04(G, d.New, n, NSW)"}}
+				return []EntrySpec{{Name: "C04", Params: "n int", Body: "hl.C04(G, vd.New, n, NSW)"}}
 			},
 			Jobs:              func(gg *GenGrammar) []*Job { return lenJobs("C04", N) },
 			BrokenIsViolation: true, ValidateEveryGrammar: validateEvery(c), Cfg: parserCfg(c),
@@ -180,7 +180,7 @@ func init() {
 		return runGrammarProperty(c, parserFamily(c, ""), &GramSpec{
 			Variants: []string{"d"},
 			Entries: func(gg *GenGrammar) []EntrySpec {
-				return []EntrySpec{{Name: "C05", Params: "n int", Body: "hl.C05(G, d.New, strconv.Quote, n, NSW)"}}
+				return []EntrySpec{{Name: "C05", Params: "n int", Body: "hl.C05(G, vd.New, strconv.Quote, n, NSW)"}}
 			},
 			Jobs:              func(gg *GenGrammar) []*Job { return lenJobs("C05", N) },
 			BrokenIsViolation: true, ValidateEveryGrammar: validateEvery(c), Cfg: parserCfg(c),
@@ -192,7 +192,7 @@ func init() {
 		return runGrammarProperty(c, parserFamily(c, ""), &GramSpec{
 			Variants: []string{"d"},
 			Entries: func(gg *GenGrammar) []EntrySpec {
-				return []EntrySpec{{Name: "C06", Params: "n int", Body: "hl.C06(G, d.New, n, NSW)"}}
+				return []EntrySpec{{Name: "C06", Params: "n int", Body: "hl.C06(G, vd.New, n, NSW)"}}
 			},
 			Jobs:              func(gg *GenGrammar) []*Job { return lenJobs("C06", N) },
 			BrokenIsViolation: true, ValidateEveryGrammar: validateEvery(c), Cfg: parserCfg(c),
@@ -216,7 +216,7 @@ func init() {
 				for _, vn := range ok {
 					ex = append(ex, fmt.Sprint(vn == "n" || vn == "ni"))
 				}
-				return []EntrySpec{{Name: "C07", Params: "n int", Body: fmt.Sprintf("hl.C07(G, d.New, %s, %s, []bool{%s}, n, NSW)", names, ctors, strings.Join(ex, ", "))}}
+				return []EntrySpec{{Name: "C07", Params: "n int", Body: fmt.Sprintf("hl.C07(G, vd.New, %s, %s, []bool{%s}, n, NSW)", names, ctors, strings.Join(ex, ", "))}}
 			},
 			Jobs:              func(gg *GenGrammar) []*Job { return lenJobs("C07", N) },
 			BrokenIsViolation: true, ValidateEveryGrammar: validateEvery(c), Cfg: parserCfg(c),
@@ -230,7 +230,7 @@ func init() {
 		return runGrammarProperty(c, parserFamily(c, ""), &GramSpec{
 			Variants: []string{"d"},
 			Entries: func(gg *GenGrammar) []EntrySpec {
-				return []EntrySpec{{Name: "C11", Params: "n int", Body: "hl.C11(G, d.New, strconv.Quote, n, NSW)"}}
+				return []EntrySpec{{Name: "C11", Params: "n int", Body: "hl.C11(G, vd.New, strconv.Quote, n, NSW)"}}
 			},
 			Jobs:              func(gg *GenGrammar) []*Job { return lenJobs("C11", N) },
 			BrokenIsViolation: true, ValidateEveryGrammar: validateEvery(c), Cfg: parserCfg(c),
